@@ -248,6 +248,10 @@ def stepReq (st : St) (ws ows : List String) : St × String :=
           | Option.none => []
         if rt.method != m || !fits rt.path segs then (st, "bad-op row-does-not-fit-request") else
         let status := ((kv? ows "status").bind String.toNat?).getD 0
+        -- `all=` (the admin's view, taken just before the request) is written in front of `=>`
+        let ows := match kv? rest "all" with
+          | some a => ows ++ ["all=" ++ a]
+          | Option.none => ows
         -- every request is authenticated first
         let (a, sess1) := authenticate st.cfg st.sess ad.header tr
         let st1 := { st with sess := sess1 }
